@@ -157,6 +157,46 @@ func EncodeMessageExtraData(extraData *ExtraOpaqueData,
 	return extraData.PackRecords(recordProducers...)
 }
 
+// EncodeMessageExtraDataKeepUnknown is like EncodeMessageExtraData, but carries
+// over any record already present in extraData whose type is not one of the
+// message's known types. A message that was decoded from the wire keeps the
+// full TLV stream it was read from in its extra data field, so this makes
+// records we don't understand survive a decode/encode round trip. That matters
+// for messages whose signature covers the extra data: dropping a record would
+// invalidate the message for everyone we relay it to.
+//
+// Records of a known type are only ever taken from recordProducers, i.e. from
+// the message's typed fields. If the existing extra data isn't a valid TLV
+// stream there's nothing that can be carried over and only the given records
+// are packed.
+func EncodeMessageExtraDataKeepUnknown(extraData *ExtraOpaqueData,
+	knownTypes []tlv.Type, recordProducers ...tlv.RecordProducer) error {
+
+	if extraData == nil {
+		return fmt.Errorf("extra data cannot be nil")
+	}
+
+	producers := recordProducers
+	if len(*extraData) != 0 {
+		existing, err := extraData.ExtractRecords()
+		if err == nil {
+			for _, knownType := range knownTypes {
+				delete(existing, knownType)
+			}
+
+			unknown := RecordsAsProducers(TlvMapToRecords(existing))
+			producers = make(
+				[]tlv.RecordProducer, 0,
+				len(recordProducers)+len(unknown),
+			)
+			producers = append(producers, recordProducers...)
+			producers = append(producers, unknown...)
+		}
+	}
+
+	return extraData.PackRecords(producers...)
+}
+
 // ParseAndExtractCustomRecords parses the given extra data into the passed-in
 // records, then returns any remaining records split into custom records and
 // extra data.
